@@ -1839,7 +1839,9 @@ class PGPKey(Armorable, ParentRef, PGPObject):
 
         try:
             for sk in itertools.chain([self], self.subkeys.values()):
-                sk._key.unprotect(passphrase)
+                if sk.is_protected:
+                    # (a subkey that is not protected has nothing to decrypt)
+                    sk._key.unprotect(passphrase)
             del passphrase
             yield self
 
